@@ -24,7 +24,8 @@ def run(rep, tier, seed):
     r = vlib.tlc_design("HttpServer", "HttpServer.cfg", work, workers=2, timeout=1200)
     rep.add_tlc("HttpServer: RowOK holds for the abstract handler model on all rows (ASSUME)", r)
     trace = os.path.join(work, "trace.ndjson")
-    p = vlib.sh("%s -seed %d -variants %d -out %s -dir %s 2>/dev/null" % (binp, seed, 4 if thorough else 1, trace, os.path.join(work, "data")), timeout=3000, check=False)
+    desync = vlib.build_desync(tags="")
+    p = vlib.sh("%s -seed %d -variants %d -out %s -dir %s -desync %s 2>/dev/null" % (binp, seed, 4 if thorough else 1, trace, os.path.join(work, "data"), desync), timeout=3000, check=False)
     if p.returncode != 0:
         raise vlib.Infra("driver c15 failed:\n" + p.stdout[-3000:])
     vlib.log(p.stdout.strip())
